@@ -174,8 +174,19 @@ def run(ctx):
     # D3
     for k in ('gamma_UNIFAC', 'gamma_modified_UNIFAC'):
         f = m.functions[k]
-        loops = [n for n in walk_no_nested(f.node) if isinstance(n, ast.For) and src(n.iter) == 'enumerate(index)'
-                 and isinstance(n.target, ast.Tuple) and len(n.target.elts) == 2]
+        # the two loops over the positions of `index`: for i, j in enumerate(index)  |  for i in range(index.size / len(index) / N) with j = index[i]
+        sizes = {'index.size', 'len(index)'} | {n.targets[0].id for n in walk_no_nested(f.node) if isinstance(n, ast.Assign) and len(n.targets) == 1
+                                                 and isinstance(n.targets[0], ast.Name) and src(n.value) in ('index.size', 'len(index)')}
+
+        def _ij(lp):
+            if src(lp.iter) == 'enumerate(index)' and isinstance(lp.target, ast.Tuple) and len(lp.target.elts) == 2 \
+                    and all(isinstance(t, ast.Name) for t in lp.target.elts):
+                return lp.target.elts[0].id, lp.target.elts[1].id
+            if isinstance(lp.iter, ast.Call) and src(lp.iter.func) == 'range' and len(lp.iter.args) == 1 and src(lp.iter.args[0]) in sizes \
+                    and isinstance(lp.target, ast.Name):
+                return lp.target.id, 'index[%s]' % lp.target.id
+            return None
+        loops = [n for n in walk_no_nested(f.node) if isinstance(n, ast.For) and _ij(n) is not None]
         if len(loops) != 2:
             d3.fail(k, 'loops', 'expected a gather loop and a scatter loop over enumerate(index), found %d' % len(loops), f, f.node)
             continue
@@ -184,7 +195,7 @@ def run(ctx):
         xparam = f.params[0]
         rets = [n for n in walk_no_nested(f.node) if isinstance(n, ast.Return)]
         GAM = src(rets[0].value) if rets and all(isinstance(r.value, ast.Name) and src(r.value) == src(rets[0].value) for r in rets) else None
-        i, j = (t.id for t in gl.target.elts)
+        i, j = _ij(gl)
         stores = [n for n in ast.walk(gl) if isinstance(n, ast.Assign)]
         okg = len(stores) == 1 and isinstance(stores[0].targets[0], ast.Subscript) and src(stores[0].targets[0].slice) == i \
             and isinstance(stores[0].targets[0].value, ast.Name) and src(stores[0].value) == '%s[%s]' % (xparam, j)
@@ -212,7 +223,7 @@ def run(ctx):
             d3.ok(k, 'gather: x_sub[i] <- x[index[i]] (and the group model is evaluated at x_sub)', f, gl)
         else:
             d3.fail(k, 'gather', 'the gather loop is not x_sub[i] = x[index[i]] (found %s)' % '; '.join(src(s) for s in stores), f, gl)
-        i, j = (t.id for t in sl.target.elts)
+        i, j = _ij(sl)
         stores = [n for n in ast.walk(sl) if isinstance(n, ast.Assign) and isinstance(n.targets[0], ast.Subscript)]
         vals = {src(n.targets[0]): n.value for n in ast.walk(sl) if isinstance(n, ast.Assign) and isinstance(n.targets[0], ast.Name)}
         okk = len(stores) == 1 and GAM is not None and src(stores[0].targets[0]) == '%s[%s]' % (GAM, j)
